@@ -6,6 +6,7 @@ import shlex
 import socket
 import sys
 import time
+from functools import partial
 from struct import unpack, unpack_from
 from typing import IO, Callable, Sequence
 
@@ -152,12 +153,10 @@ class RFBServer(Protocol):  # type: ignore[misc]
             self.handle_setPixelFormat(pixel_fomat)
         elif ptype == MsgC2S.SET_ENCODING:
             (nencodings,) = unpack("!xH", block)
-            nbytes = 4 * nencodings
-            encodings = unpack_from("!" + "I" * nencodings, self.buffer)
-            del self.buffer[:nbytes]
-            for encoding in encodings:
-                log.debug(f"Client announces {Encoding.lookup(encoding)!r}")
-            self.handle_setEncodings(encodings)
+            self._handler = (
+                partial(self._handle_setEncodingsList, nencodings),
+                4 * nencodings,
+            )
         elif ptype == MsgC2S.FRAMEBUFFER_UPDATE_REQUEST:
             inc, x, y, w, h = unpack("!BHHHH", block)
             self.handle_framebufferUpdate(x, y, w, h, inc)
@@ -179,6 +178,15 @@ class RFBServer(Protocol):  # type: ignore[misc]
         else:
             log.debug("Unhandled response %r", MsgC2S.lookup(ptype))
             raise ProtocolError(ptype)
+
+    def _handle_setEncodingsList(self, nencodings: int) -> None:
+        nbytes = 4 * nencodings
+        encodings = unpack_from("!" + "I" * nencodings, self.buffer)
+        del self.buffer[:nbytes]
+        for encoding in encodings:
+            log.debug(f"Client announces {Encoding.lookup(encoding)!r}")
+        self.handle_setEncodings(encodings)
+        self._handler = self._handle_protocol, 1
 
     def _handle_qemuExtendedKeyEvent(self) -> None:
         down_flag, keysym, keycode = unpack_from("!HII", self.buffer)
